@@ -409,7 +409,7 @@ def vec_index(I, st, fr, t, a):
     ok = False
     if isinstance(v, Seq) and v.concrete() and isinstance(idx, BV) and idx.known():
         ok = idx.uval() < len(v.items)
-    key = (fr.fname, t['at'], 'VecIndex')
+    key = (fr.fname, t['at'], t['res']['path'])
     if ok:
         I.asserts_ok[key] = I.asserts_ok.get(key, 0) + 1
         return Ref(r.cell, r.path + (('idx', idx),), False), st
@@ -824,3 +824,499 @@ def map_bit_board_to_squares(I, st, fr, t, a):
             i += 1
         return Seq(items), st
     return Seq([('bulk', bv, Struct(sq_ty, (SIGMA,)))]), st
+
+
+# ====================================================================================================================
+# Extensions for the panic analysis of the text parsers and of Display (opaque strings, loops of unknown length)
+# ====================================================================================================================
+def visit(I, fr, t, ok, detail=None):
+    key = (fr.fname if fr else '?', t.get('at'), (t.get('res') or {}).get('path'))
+    if ok:
+        I.asserts_ok[key] = I.asserts_ok.get(key, 0) + 1
+    else:
+        I.asserts_bad.setdefault(key, detail or 'not discharged')
+
+
+def typed_opaque(I, st, fr, t, a, why=None):
+    path = (t.get('res') or {}).get('path', '?')
+    I.opaque_calls[path] = I.opaque_calls.get(path, 0) + 1
+    ty = ret_ty(I, fr, t)
+    if ty == '()':
+        return UNIT, st
+    return I.fresh_value('op%d' % next(I.frame_counter), ty), st
+
+
+for _n in list(TABLE):
+    if TABLE[_n] is opaque:
+        TABLE[_n] = typed_opaque
+PREFIX[:] = [(p, typed_opaque) for (p, h) in PREFIX]
+for _p in ('<T as std::string::ToString>::to_string', '<std::string::String as std::ops::Deref>::deref',
+           'std::iter::Iterator::find', 'std::str::<impl str>::to_lowercase', 'std::string::String::', '<std::string::String as',
+           'std::char::methods::', 'core::char::methods::', '<&usize as std::ops::Rem<usize>>::rem'):
+    PREFIX.append((_p, typed_opaque))
+
+
+# ---- opaque iterators: loop with unknown trip count, "havoc the modified state" abstraction
+class LoopState(object):
+    __slots__ = ('phase', 'snap', 'events', 'written')
+
+
+def opaque_next(I, st, fr, t, a):
+    """next() on an iterator we do not model. Protocol per loop (keyed by the iterator's storage cell):
+       call 1: snapshot, return Some(fresh element)           [discovery pass]
+       call 2: restore the snapshot with every cell written during the pass havocked, return Some(fresh element)
+       call 3: havoc the written cells again, return None      [loop exit]"""
+    r = a[0]
+    ty = ret_ty(I, fr, t)
+    key = ('loop', fr.id, t.get('at'), r.cell if isinstance(r, Ref) else None)
+    ls = I.loops.get(key)
+    elem_ty = None
+    ti = I.tyinfo(ty) if ty else None
+    if ti and ti['k'] == 'adt' and len(ti['variants']) == 2 and ti['variants'][1]['fields']:
+        elem_ty = ti['variants'][1]['fields'][0]
+    name = 'it%d' % next(I.frame_counter)
+
+    def elem():
+        return some(I.fresh_value(name, elem_ty), ty or OPT)
+    if ls is None:
+        ls = LoopState()
+        ls.phase = 1
+        ls.snap = dict(st.store)
+        ls.events = (dict(I.asserts_ok), dict(I.asserts_bad), dict(I.panics))
+        I.loops[key] = ls
+        return elem(), st
+    if ls.phase == 1:
+        written = [c for c, v in st.store.items() if c in ls.snap and ls.snap[c] is not v and not _same(ls.snap[c], v)]
+        ls.written = written
+        store = dict(ls.snap)
+        for c in written:
+            store[c] = I.havoc(ls.snap[c], 'loop')
+        st.store.clear()
+        st.store.update(store)
+        I.asserts_ok.clear(); I.asserts_ok.update(ls.events[0])
+        I.asserts_bad.clear(); I.asserts_bad.update(ls.events[1])
+        I.panics.clear(); I.panics.update(ls.events[2])
+        ls.phase = 2
+        return elem(), st
+    # phase 2 -> exit
+    for c in ls.written:
+        if c in st.store:
+            st.store[c] = I.havoc(st.store[c], 'loop-exit')
+    del I.loops[key]
+    return none(ty or OPT), st
+
+
+def _same(a, b):
+    try:
+        return a == b
+    except Exception:
+        return False
+
+
+def next_dispatch(I, st, fr, t, a):
+    r = a[0]
+    it = I.read_at(st, r.cell, r.path) if isinstance(r, Ref) else r
+    if isinstance(it, Struct) and it.ty == '$SliceIter':
+        return slice_next(I, st, fr, t, a)
+    if isinstance(it, Struct) and it.ty == '$Range':
+        return range_next(I, st, fr, t, a)
+    return opaque_next(I, st, fr, t, a)
+
+
+PREFIX.append(('<std::iter::Enumerate<I> as std::iter::Iterator>::next', next_dispatch))
+PREFIX.append(('<std::iter::Map<I, F> as std::iter::Iterator>::next', next_dispatch))
+PREFIX.append(('<std::iter::Filter<I, P> as std::iter::Iterator>::next', next_dispatch))
+PREFIX.append(('<std::str::Chars<', next_dispatch))
+PREFIX.append(('<std::str::Split<', next_dispatch))
+TABLE["<std::slice::Iter<'a, T> as std::iter::Iterator>::next"] = next_dispatch
+TABLE['<std::vec::IntoIter<T, A> as std::iter::Iterator>::next'] = next_dispatch
+
+
+# ---- opaque containers
+_old_slice_iter = TABLE['core::slice::<impl [T]>::iter']
+
+
+def slice_iter2(I, st, fr, t, a):
+    v = I.deref(st, a[0])
+    if isinstance(v, Seq):
+        return _old_slice_iter(I, st, fr, t, a)
+    return Tok('iter%d' % next(I.frame_counter), ret_ty(I, fr, t)), st
+
+
+TABLE['core::slice::<impl [T]>::iter'] = slice_iter2
+
+_old_collect = TABLE['std::iter::Iterator::collect']
+
+
+def collect2(I, st, fr, t, a):
+    it = a[0]
+    if isinstance(it, Struct) and it.ty in ('$SliceIter', '$Map', '$Filter', '$Cloned'):
+        try:
+            return _old_collect(I, st, fr, t, a)
+        except Exception:
+            pass
+    return Tok('coll%d' % next(I.frame_counter), ret_ty(I, fr, t)), st
+
+
+TABLE['std::iter::Iterator::collect'] = collect2
+
+
+def lazy_adapter(kind):
+    def h(I, st, fr, t, a):
+        it = a[0]
+        if isinstance(it, Struct) and it.ty not in ('$Range', '$Split'):
+            return Struct(kind, tuple(a)), st
+        return Tok('%s%d' % (kind, next(I.frame_counter)), ret_ty(I, fr, t)), st
+    return h
+
+
+TABLE['std::iter::Iterator::map'] = lazy_adapter('$Map')
+TABLE['std::iter::Iterator::filter'] = lazy_adapter('$Filter')
+TABLE['std::iter::Iterator::enumerate'] = lazy_adapter('$Enumerate')
+TABLE['std::iter::Iterator::cloned'] = lazy_adapter('$Cloned')
+
+_old_len = TABLE['std::vec::Vec::<T, A>::len']
+
+
+def len2(I, st, fr, t, a):
+    v = I.deref(st, a[0])
+    if isinstance(v, Seq):
+        return _old_len(I, st, fr, t, a)
+    return Term('len', (v,), 64, 0, (1 << 63) - 1), st
+
+
+TABLE['std::vec::Vec::<T, A>::len'] = len2
+TABLE['core::slice::<impl [T]>::len'] = len2
+
+_old_index = TABLE['<std::vec::Vec<T, A> as std::ops::Index<I>>::index']
+
+
+def index2(I, st, fr, t, a):
+    r = a[0]
+    v = I.deref(st, r)
+    idx = a[1]
+    if isinstance(v, Seq):
+        return _old_index(I, st, fr, t, a)
+    ln = Term('len', (v,), 64, 0, (1 << 63) - 1)
+    I.cur_pc = st.pc
+    lo, hi = I.rng(ln)
+    ty = ret_ty(I, fr, t)
+    if isinstance(idx, Struct) and idx.ty.endswith('RangeTo<usize>') or (isinstance(idx, Struct) and 'Range' in idx.ty):
+        # slice by range: end (and start) must not exceed len
+        bounds = [x for x in idx.fields if isinstance(x, (BV, Term))]
+        ok = all(I.rng(x) is not None and I.rng(x)[1] <= lo for x in bounds)
+        visit(I, fr, t, ok, 'range %r of a vector with len in [%d,%d]' % (idx, lo, hi))
+        return I.fresh_value('slice%d' % next(I.frame_counter), ty), st
+    ri = I.rng(idx)
+    ok = ri is not None and ri[1] < lo
+    visit(I, fr, t, ok, 'index %r of a vector with len in [%d,%d]' % (idx, lo, hi))
+    return I.fresh_value('elem%d' % next(I.frame_counter), ty), st
+
+
+TABLE['<std::vec::Vec<T, A> as std::ops::Index<I>>::index'] = index2
+PREFIX.insert(0, ('core::slice::index::<impl std::ops::Index<I> for [T]>::index', index2))
+
+
+def str_index(I, st, fr, t, a):
+    # byte-range slicing of a str panics off char boundaries / out of range: never dischargeable for unknown text
+    visit(I, fr, t, False, 'str sliced by byte range %r' % (a[1],))
+    return I.fresh_value('strslice%d' % next(I.frame_counter), ret_ty(I, fr, t)), st
+
+
+PREFIX.insert(0, ('core::str::traits::<impl std::ops::Index<I> for str>::index', str_index))
+
+
+@summary('core::slice::<impl [T]>::first')
+def slice_first(I, st, fr, t, a):
+    v = I.deref(st, a[0])
+    ty = ret_ty(I, fr, t)
+    if isinstance(v, Seq) and v.concrete():
+        if v.items:
+            return some(Ref(a[0].cell, a[0].path + (('idx', BV.const(0, 64)),)), ty), st
+        return none(ty), st
+    return I.fresh_value('first%d' % next(I.frame_counter), ty), st
+
+
+# ---- Range / RangeInclusive
+@summary('std::ops::RangeInclusive::<Idx>::new')
+def rangeincl_new(I, st, fr, t, a):
+    return Struct('$RangeIncl', (a[0], a[1])), st
+
+
+@summary('std::ops::RangeInclusive::<Idx>::contains')
+def rangeincl_contains(I, st, fr, t, a):
+    rg = I.deref(st, a[0])
+    x = I.deref(st, a[1])
+    if isinstance(rg, Struct) and rg.ty == '$RangeIncl' and all(isinstance(b_, BV) and b_.known() for b_ in rg.fields):
+        lo, hi = rg.fields[0].uval(), rg.fields[1].uval()
+        I.cur_pc = st.pc
+        rx = I.rng(x)
+        if rx and rx[0] >= lo and rx[1] <= hi:
+            return TRUE, st
+        if rx and (rx[1] < lo or rx[0] > hi):
+            return FALSE, st
+        at = B.atom('inrange', (x, lo, hi), payload=(x, lo, hi))
+        return boolv(B.atom_bit(at)), st
+    return boolv(B.atom_bit(B.atom('tokbool', 'contains%d' % next(I.frame_counter)))), st
+
+
+def range_next(I, st, fr, t, a):
+    r = a[0]
+    it = I.read_at(st, r.cell, r.path)
+    lo, hi = it.fields
+    ty = ret_ty(I, fr, t) or OPT
+    if isinstance(lo, BV) and lo.known() and isinstance(hi, BV) and hi.known():
+        if lo.uval() < hi.uval():
+            st.store[r.cell] = I.update(st.store[r.cell], r.path, Struct('$Range', (BV.const(lo.uval() + 1, lo.w), hi)))
+            return some(lo, ty), st
+        return none(ty), st
+    return opaque_next(I, st, fr, t, a)
+
+
+TABLE['std::iter::range::<impl std::iter::Iterator for std::ops::Range<A>>::next'] = range_next
+
+
+# ---- Result / Try
+@summary('<std::result::Result<T, E> as std::ops::Try>::branch')
+def try_branch(I, st, fr, t, a):
+    ty = ret_ty(I, fr, t) or 'std::ops::ControlFlow'
+
+    def conv(v):
+        if isinstance(v, Enum):
+            if v.var == 0:
+                return Enum(ty, 0, (v.fields[0],))          # Continue(val)
+            return Enum(ty, 1, (Enum('std::result::Result', 1, (v.fields[0],)),))   # Break(Err(e))
+        if isinstance(v, Ite):
+            return Ite(v.c, conv(v.a), conv(v.b))
+        raise from_undecided()('Try::branch on %r' % (v,))
+    v = a[0]
+    if isinstance(v, Tok):
+        v = I.fresh_value(v.name, v.ty)
+    return conv(v), st
+
+
+@summary('<std::result::Result<T, F> as std::ops::FromResidual<std::result::Result<std::convert::Infallible, E>>>::from_residual')
+def from_residual(I, st, fr, t, a):
+    ty = ret_ty(I, fr, t) or 'std::result::Result'
+    v = a[0]
+
+    def conv(x):
+        if isinstance(x, Enum):
+            return Enum(ty, 1, (Top('converted error'),))
+        if isinstance(x, Ite):
+            return Ite(x.c, conv(x.a), conv(x.b))
+        return Enum(ty, 1, (Top('converted error'),))
+    return conv(v), st
+
+
+def fmt_write(I, st, fr, t, a):
+    ty = ret_ty(I, fr, t) or 'std::result::Result'
+    at = B.atom('tokbool', 'fmt-err%d' % next(I.frame_counter))
+    return Ite(B.atom_bit(at), Enum(ty, 1, (Tok('fmt::Error'),)), Enum(ty, 0, (UNIT,))), st
+
+
+for _n in ("std::fmt::Formatter::<'a>::write_fmt", "std::fmt::Formatter::<'a>::write_str"):
+    TABLE[_n] = fmt_write
+
+
+# ---- parse dispatches into the local FromStr impl
+def str_parse(I, st, fr, t, a):
+    res = t.get('res') or {}
+    args = res.get('args', '')
+    target = args.strip('[]').split(',')[0].strip()
+    cand = '<%s as std::str::FromStr>::from_str' % target
+    if cand in I.fns:
+        return I.call_local(cand, [a[0]], st)
+    return typed_opaque(I, st, fr, t, a)
+
+
+TABLE['core::str::<impl str>::parse'] = str_parse
+
+
+# ---- regex: contract table (DESIGN 3.B). The pattern is a source constant; these are facts about the regex crate.
+def regex_new(I, st, fr, t, a):
+    pat = I.deref(st, a[0])
+    text = pat.fields[0] if isinstance(pat, Struct) and pat.ty == '$str' else None
+    ty = ret_ty(I, fr, t) or 'std::result::Result'
+    I.regex_patterns.append((fr.fname, t.get('at'), text))
+    if text is not None and regex_pattern_ok(text):
+        # a constant pattern from the supported fragment always compiles
+        return Enum(ty, 0, (Struct('$Regex', (text,)),)), st
+    return I.fresh_value('regex%d' % next(I.frame_counter), ty), st
+
+
+def regex_pattern_ok(p):
+    """Syntactic validity check of the small fragment used: literals, classes, escapes \\s \\d, groups, ^, +, *."""
+    depth = 0
+    i = 0
+    in_class = False
+    while i < len(p):
+        c = p[i]
+        if c == '\\':
+            if i + 1 >= len(p) or p[i + 1] not in 'sdwSDW.()[]|\\+*?^$':
+                return False
+            i += 2
+            continue
+        if in_class:
+            if c == ']':
+                in_class = False
+        elif c == '[':
+            in_class = True
+        elif c == '(':
+            depth += 1
+        elif c == ')':
+            depth -= 1
+            if depth < 0:
+                return False
+        elif c in '{}':
+            return False
+        i += 1
+    return depth == 0 and not in_class
+
+
+def mandatory_groups(p):
+    """Indices of capture groups that participate in every match: top-level groups not followed by ? or * and with no
+    top-level alternation in the pattern."""
+    out = set()
+    depth = 0
+    idx = 0
+    stack = []
+    i = 0
+    in_class = False
+    top_alt = False
+    while i < len(p):
+        c = p[i]
+        if c == '\\':
+            i += 2
+            continue
+        if in_class:
+            if c == ']':
+                in_class = False
+        elif c == '[':
+            in_class = True
+        elif c == '(':
+            idx += 1
+            stack.append((idx, depth))
+            depth += 1
+        elif c == ')':
+            depth -= 1
+            g, d0 = stack.pop()
+            nxt = p[i + 1] if i + 1 < len(p) else ''
+            if d0 == 0 and nxt not in ('?', '*', '{'):
+                out.add(g)
+        elif c == '|' and depth == 0:
+            top_alt = True
+        i += 1
+    return set() if top_alt else out
+
+
+def regex_captures(I, st, fr, t, a):
+    rx = I.deref(st, a[0])
+    ty = ret_ty(I, fr, t) or OPT
+    at = B.atom('tokbool', 'regex-match%d' % next(I.frame_counter))
+    text = rx.fields[0] if isinstance(rx, Struct) and rx.ty == '$Regex' else None
+    return Ite(B.atom_bit(at), some(Struct('$Captures', (text,)), ty), none(ty)), st
+
+
+def captures_get(I, st, fr, t, a):
+    cap = I.deref(st, a[0])
+    ty = ret_ty(I, fr, t) or OPT
+    k = a[1]
+    if isinstance(cap, Struct) and cap.ty == '$Captures' and cap.fields[0] is not None and isinstance(k, BV) and k.known():
+        if k.uval() == 0 or k.uval() in mandatory_groups(cap.fields[0]):
+            return some(Tok('match%d' % next(I.frame_counter), None), ty), st
+    return I.fresh_value('capget%d' % next(I.frame_counter), ty), st
+
+
+TABLE['regex::Regex::new'] = regex_new
+TABLE['regex::Regex::captures'] = regex_captures
+TABLE["regex::Captures::<'t>::get"] = captures_get
+
+
+# str::split yields at least one item, so `.find(|_| true)` on it is Some (contract)
+def str_split(I, st, fr, t, a):
+    return Struct('$Split', (a[0],)), st
+
+
+def iter_find(I, st, fr, t, a):
+    it = a[0]
+    it = I.deref(st, it) if isinstance(it, Ref) else it
+    ty = ret_ty(I, fr, t) or OPT
+    clo = a[1]
+    if isinstance(it, Struct) and it.ty == '$Split':
+        # first item exists; is the predicate constantly true?
+        elem = I.fresh_value('split-first%d' % next(I.frame_counter), _payload_ty(I, ty))
+        cell = ('static', 'findarg%d' % next(I.frame_counter))
+        st.store[cell] = elem
+        r, st = I.call_closure(st, clo, [Ref(cell)])
+        if isinstance(r, BV) and r.bits[0] is C1:
+            return some(elem, ty), st
+    return I.fresh_value('find%d' % next(I.frame_counter), ty), st
+
+
+def _payload_ty(I, ty):
+    ti = I.tyinfo(ty) if ty else None
+    if ti and ti['k'] == 'adt' and len(ti['variants']) == 2 and ti['variants'][1]['fields']:
+        return ti['variants'][1]['fields'][0]
+    return None
+
+
+TABLE['core::str::<impl str>::split'] = str_split
+TABLE['std::iter::Iterator::find'] = iter_find
+
+
+# unwrap / expect record a visit so that the inventory can tell "discharged" from "never analysed"
+_old_unwrap = TABLE['std::option::Option::<T>::unwrap']
+
+
+def unwrap2(I, st, fr, t, a):
+    before = len(I.panics)
+    key = (fr.fname, t['at'], t['res']['path'])
+    had = key in I.panics
+    v = a[0]
+    if isinstance(v, Tok):
+        v = I.fresh_value(v.name, v.ty)
+        a = [v] + list(a[1:])
+    r, st2 = _old_unwrap(I, st, fr, t, a)
+    if key not in I.panics:
+        I.asserts_ok[key] = I.asserts_ok.get(key, 0) + 1
+    return r, st2
+
+
+TABLE['std::option::Option::<T>::unwrap'] = unwrap2
+TABLE['std::option::Option::<T>::expect'] = unwrap2
+
+_old_res_unwrap = TABLE['std::result::Result::<T, E>::unwrap']
+
+
+def res_unwrap2(I, st, fr, t, a):
+    key = (fr.fname, t['at'], t['res']['path'])
+    v = a[0]
+
+    def on(v, st):
+        if isinstance(v, Enum):
+            if v.var == 0:
+                return v.fields[0], st
+            I.panics.setdefault(key, st.pc)
+            return BOTTOM, None
+        if isinstance(v, Ite):
+            from .mai import State
+            r1, s1 = on(v.a, State(dict(st.store), st.pc + (v.c,)))
+            r2, s2 = on(v.b, State(dict(st.store), st.pc + (B.bnot(v.c),)))
+            if s1 is None:
+                return r2, s2
+            if s2 is None:
+                return r1, s1
+            return I.merge(v.c, r1, r2), I.merge_states(v.c, s1, s2, st.pc)
+        I.panics.setdefault(key, st.pc)
+        return Top('unwrap of unknown Result'), st
+    if isinstance(v, Tok):
+        v = I.fresh_value(v.name, v.ty)
+    r, st2 = on(v, st)
+    if key not in I.panics:
+        I.asserts_ok[key] = I.asserts_ok.get(key, 0) + 1
+    return r, st2
+
+
+TABLE['std::result::Result::<T, E>::unwrap'] = res_unwrap2
+TABLE['std::result::Result::<T, E>::expect'] = res_unwrap2
